@@ -605,16 +605,38 @@ template <class A> static void component_case (vp::Ctx& c)
                     y        = T (fx + d);
                 }
                 el (b, k) = y;
+                if constexpr (!std::is_integral<T>::value)
+                {
+                    // non-finite slots: the comparison must still depend on that slot (a NaN difference is not "within e")
+                    int sp = (int) s.below (8);
+                    if (sp == 0)
+                        el (a, k) = T (std::numeric_limits<float>::quiet_NaN ());
+                    else if (sp == 1)
+                        el (b, k) = T (std::numeric_limits<float>::quiet_NaN ());
+                    else if (sp == 2)
+                    {
+                        el (a, k) = T (std::numeric_limits<float>::infinity ());
+                        el (b, k) = T (std::numeric_limits<float>::infinity ());
+                    }
+                    else if (sp == 3)
+                    {
+                        el (a, k) = T (-std::numeric_limits<float>::infinity ());
+                        el (b, k) = T (std::numeric_limits<float>::infinity ());
+                    }
+                    if (sp < 4) mode = 4 + sp;
+                }
                 VP_NOTE (c, Info<A>::name () << " equalWithAbsError/RelError a=" << astr (a) << " b=" << astr (b) << " e=" << show (e) << " (slot " << k << " perturbed, mode " << mode << ")");
                 c.nt (mode != 0);
                 bool wabs = true, wrel = true;
                 for (int i = 0; i < N; ++i)
                 {
-                    T x1 = cel (a, i), x2 = cel (b, i);
-                    T diff = (x1 > x2) ? T (x1 - x2) : T (x2 - x1);
+                    // the scalar definitions, evaluated exactly as C++ evaluates them for this element type
+                    // (for half / short / unsigned char the differences and products are float / int, unrounded)
+                    T    x1 = cel (a, i), x2 = cel (b, i);
+                    auto diff = (x1 > x2) ? x1 - x2 : x2 - x1;
                     if (!(diff <= e)) wabs = false;
-                    T ax = (x1 > T (0)) ? x1 : T (-x1);
-                    if (!(diff <= T (e * ax))) wrel = false;
+                    auto ax = (x1 > T (0)) ? x1 : -x1;
+                    if (!(diff <= e * ax)) wrel = false;
                 }
                 VP_REQUIRE (c, a.equalWithAbsError (b, e) == wabs, "eqtol/abs", Info<A>::name () << " equalWithAbsError = " << a.equalWithAbsError (b, e) << " expected " << wabs << " a=" << astr (a) << " b=" << astr (b) << " e=" << show (e));
                 if constexpr (!std::is_same<T, unsigned char>::value)
